@@ -117,6 +117,26 @@ class Widget(Item):          # deliberately NOT decorated: inherits the hybrid c
     pass
 
 
+@symbol
+@dataclass(eq=False, repr=False)
+class Twin(Item):
+    """Value equality: two distinct Twin objects with the same (a, b, c) compare equal and hash alike, as
+    dataclass(eq=True, unsafe_hash=True) user classes do.  The engine must still tell them apart by identity."""
+
+    def __eq__(self, other):
+        cb("cmp", lab(self), "==obj")
+        if not isinstance(other, Twin):
+            return NotImplemented
+        return (_get(self, "a"), _get(self, "b"), _get(self, "c")) == (_get(other, "a"), _get(other, "b"), _get(other, "c"))
+
+    def __ne__(self, other):
+        r = self.__eq__(other)
+        return r if r is NotImplemented else not r
+
+    def __hash__(self):
+        return hash((int(_get(self, "a")), int(_get(self, "b")), int(_get(self, "c"))))
+
+
 # ---- classes built by rule heads (constructor callbacks)
 
 @symbol
@@ -200,7 +220,7 @@ class Linked(Predicate):
         return self.x.a == self.y.b
 
 
-CLASSES = {"Item": Item, "Gadget": Gadget, "Widget": Widget, "View": View, "Pair": Pair, "Solo": Solo,
+CLASSES = {"Item": Item, "Gadget": Gadget, "Widget": Widget, "Twin": Twin, "View": View, "Pair": Pair, "Solo": Solo,
            "Tagged": Tagged}
 FPREDS = {"p_odd": (p_odd, 1), "p_ge": (p_ge, 2), "p_link": (p_link, 2), "p_has": (p_has, 2)}
 CPREDS = {"IsBig": (IsBig, 1), "IsBigK": (IsBig, 2), "Linked": (Linked, 2)}
